@@ -156,12 +156,20 @@ def run(tier, seed):
                     report_alarms(V, r, cfg)
         except Broken as e:
             V.broke("%s: %s" % (cfg, e))
+    # the long long / unsigned long long spellings of the 64-bit operand are distinct types on LP64: same programs as int64_t / uint64_t
+    from . import spell
+    for cfg_ in (configs[:1] if tier == "quick" else configs):
+        try:
+            spell.check(V, cfg_, "mul", "fixed_multiply")
+        except Broken as e:
+            V.broke("spellings %s: %s" % (cfg_, e))
     expl = ("fixed*fixed (operator*, *=, fixed_multiply) with finite operands: on every non-NaN path the returned form q satisfies "
             "-65535 <= 65536*q - P <= 0 where P is the value-numbered exact product a*b (so |q - a*b/2^16| < 1 ulp, product unwrapped and within "
             "64 bits); every path returning the NaN constant has |P| >= 2^63 in its constraint store (so the result is never NaN when the raw "
             "product fits) and at least one such path is feasible (the NaN exit is live). fixed*integer for 8 carriers x 2 operand orders and *=: "
             "on non-NaN paths the returned form equals a*n with n the mathematical operand value (zero extension for unsigned carriers), NaN "
             "paths have |a*n| >= 2^63-1. No signed multiplication trap is reachable.")
+    expl = expl + ' The `long long` / `unsigned long long` spellings of a 64-bit integral operand (distinct types on LP64) are compared with the int64_t / uint64_t wrappers by summary equivalence; spellings the library does not compile for are listed in the evidence as not defined.'
     return V.finish("proof", expl, "./fx check C02 --tier %s" % tier, extra={"configs": configs, "wrappers": nw})
 
 
